@@ -1375,19 +1375,27 @@ impl StoryState {
 
             if let Some(output_stream_obj) = j_object.get("outputStream") {
                 self.current_flow.output_stream = json_read::jarray_to_runtime_obj_list(
-                    output_stream_obj.as_array().unwrap(),
+                    output_stream_obj.as_array().ok_or_else(|| {
+                        StoryError::BadJson("outputStream is not an array.".to_owned())
+                    })?,
                     false,
                 )?;
             }
 
             if let Some(current_choices_obj) = j_object.get("currentChoices") {
                 self.current_flow.current_choices = json_read::jarray_to_runtime_obj_list(
-                    current_choices_obj.as_array().unwrap(),
+                    current_choices_obj.as_array().ok_or_else(|| {
+                        StoryError::BadJson("currentChoices is not an array.".to_owned())
+                    })?,
                     false,
                 )?
                 .iter()
-                .map(|o| o.clone().into_any().downcast::<Choice>().unwrap())
-                .collect();
+                .map(|o| {
+                    o.clone().into_any().downcast::<Choice>().map_err(|_| {
+                        StoryError::BadJson("currentChoices element is not a choice.".to_owned())
+                    })
+                })
+                .collect::<Result<Vec<Rc<Choice>>, StoryError>>()?;
             }
 
             let j_choice_threads_obj = j_object.get("choiceThreads");
@@ -1410,8 +1418,12 @@ impl StoryState {
         }
 
         if let Some(eval_stack_obj) = j_object.get("evalStack") {
-            self.evaluation_stack =
-                json_read::jarray_to_runtime_obj_list(eval_stack_obj.as_array().unwrap(), false)?;
+            self.evaluation_stack = json_read::jarray_to_runtime_obj_list(
+                eval_stack_obj
+                    .as_array()
+                    .ok_or_else(|| StoryError::BadJson("evalStack is not an array.".to_owned()))?,
+                false,
+            )?;
         }
 
         if let Some(current_divert_target_path) = j_object.get("currentDivertTarget") {
@@ -1437,23 +1449,23 @@ impl StoryState {
         if let Some(current_turn_index) = j_object.get("turnIdx") {
             self.current_turn_index = current_turn_index
                 .as_i64()
-                .ok_or_else(|| StoryError::BadJson("Invalid current turn index".to_string()))?
-                as i32;
+                .and_then(|i| i32::try_from(i).ok())
+                .ok_or_else(|| StoryError::BadJson("Invalid current turn index".to_string()))?;
         }
 
         if let Some(story_seed) = j_object.get("storySeed") {
             self.story_seed = story_seed
                 .as_i64()
-                .ok_or_else(|| StoryError::BadJson("Invalid story seed".to_string()))?
-                as i32;
+                .and_then(|i| i32::try_from(i).ok())
+                .ok_or_else(|| StoryError::BadJson("Invalid story seed".to_string()))?;
         }
 
         // Not optional, but bug in inkjs means it's actually missing in inkjs saves
         if let Some(previous_random_obj) = j_object.get("previousRandom") {
             self.previous_random = previous_random_obj
                 .as_i64()
-                .ok_or_else(|| StoryError::BadJson("Invalid previous random value".to_string()))?
-                as i32;
+                .and_then(|i| i32::try_from(i).ok())
+                .ok_or_else(|| StoryError::BadJson("Invalid previous random value".to_string()))?;
         } else {
             self.previous_random = 0;
         }
